@@ -671,6 +671,23 @@ def pipeOKRo (x o : String) (p : Program) (c : Callable) : Bool :=
   && (graphRefs c).all (fun r => !callRefTo (callIdsOf x c) r
         || (match r.path with | h :: _ => h != o | [] => false))
 
+/-- `pipeOKRo` without its last conjunct: the part that does not speak about references
+to output `o` -/
+def pipeOKRoS (x : String) (p : Program) (c : Callable) : Bool :=
+  (c.isPipe || c.calls.isEmpty)
+  && decide (callIds c).Nodup
+  && c.calls.all (fun k => noStar k.binds)
+  && noStar c.ret
+  && c.calls.all (fun k => (p.find? k.decId).isSome)
+  && (graphRefs c).all (fun r => r.kind != RefKind.call || (callIds c).contains r.id)
+  && (c.name != x || decide (c.ret.map (·.name)).Nodup)
+
+/-- the last conjunct of `pipeOKRo`: every reference of `c` to a call of `x` projects an
+output other than `o` -/
+def refCondRo (x o : String) (c : Callable) : Bool :=
+  (graphRefs c).all (fun r => !callRefTo (callIdsOf x c) r
+        || (match r.path with | h :: _ => h != o | [] => false))
+
 /-- **hypothesis of `remove_output_graph`** (decidable): output `o` of `x` is
 projected from no call of `x` and no call of `x` is bound as a whole; `x` is not
 used as a type (KF2); `o` is not the callable's last output; no wildcard
@@ -686,6 +703,82 @@ def RemOutOK (x o : String) (ti : TypeInfo) (p : Program) : Bool :=
   && p.callables.all (pipeOKRo x o p)
   && (match p.top with | some t => pipeOKRo x o p (topPipe t) | none => true)
   && typesAvoid x ti
+
+/-- `RemOutOK` without the condition on the references of the program's callables to
+`x.o` (which `unusedOutputs` establishes): the structural part — `x` exists with one
+declaration, `o` is neither its last output nor its last return binding, `x` is not
+used as a type, no wildcards, distinct call ids, existing callees — and the condition
+on the bindings of the top-level call. -/
+def RemOutStructOK (x o : String) (ti : TypeInfo) (p : Program) : Bool :=
+  x != ""
+  && (match p.find? x with
+      | some xc => p.callables.all (fun c => c.name != x ||
+              (c.isPipe == xc.isPipe && c.outs == xc.outs && c.ret == xc.ret))
+          && (removeFirstOut o xc.outs).isEmpty == xc.outs.isEmpty
+          && (removeFirstBind o xc.ret).isEmpty == xc.ret.isEmpty
+      | none => false)
+  && p.callables.all (pipeOKRoS x p)
+  && (match p.top with | some t => pipeOKRo x o p (topPipe t) | none => true)
+  && typesAvoid x ti
+
+/-- a list of output removals applied one after the other -/
+def outSteps (pairs : List (String × String)) (p : Program) : Program :=
+  pairs.foldl (fun p xo => outStep xo.1 xo.2 p) p
+
+def TypeInfo.removeOutputs (pairs : List (String × String)) (ti : TypeInfo) : TypeInfo :=
+  pairs.foldl (fun ti xo => ti.removeOutput xo.1 xo.2) ti
+
+/-- the structural side condition of a whole list of output removals (decidable; it
+does not mention references to the removed outputs): `RemOutStructOK` of each removal
+in the program the earlier removals produce -/
+def TableStructOK : List (String × String) → TypeInfo → Program → Bool
+  | [], _, _ => true
+  | xo :: rest, ti, p =>
+    RemOutStructOK xo.1 xo.2 ti p && TableStructOK rest (ti.removeOutput xo.1 xo.2) (outStep xo.1 xo.2 p)
+
+/-- the table of `unusedOutputs` as a list of (pipeline, output) pairs -/
+def tablePairs (T : List (String × List String)) : List (String × String) :=
+  T.flatMap (fun e => e.2.map (fun o => (e.1, o)))
+
+/-- shape of the table (decidable): distinct keys, every key a pipeline of the program
+whose return bindings have distinct names -/
+def TableShapeOK (T : List (String × List String)) (p : Program) : Bool :=
+  decide (T.map (·.1)).Nodup
+  && T.all (fun e => match p.find? e.1 with
+      | some c => c.isPipe && decide (c.ret.map (·.name)).Nodup
+      | none => false)
+
+/-- the seeds of the input cascade of the outputs pass -/
+def outPassSeeds (p : Program) (T : List (String × List String)) : List (String × String) :=
+  T.flatMap fun e =>
+    match p.find? e.1 with
+    | some pipe => (unboundInputs p pipe e.2 []).map (fun i => (pipe.name, i))
+    | none => []
+
+def outPassIns (p : Program) (T : List (String × List String)) : List (String × String) :=
+  removeInputClosure p (closureFuel p * ((outPassSeeds p T).length + 1)) (outPassSeeds p T) []
+
+/-- the names of the top pipelines the `unusedOutputs` walk starts from -/
+def topNames (p : Program) (tops : List String) : List String :=
+  (p.callables.filter (fun c => c.isPipe && tops.contains c.name)).map (·.name)
+
+/-- the pipelines called by the pipeline named `n` -/
+def pipeKids (p : Program) (n : String) : List String :=
+  match p.find? n with
+  | some pipe => pipe.calls.filterMap (fun k =>
+      match p.find? k.decId with
+      | some d => if d.isPipe then some d.name else none
+      | none => none)
+  | none => []
+
+def reachList (p : Program) : Nat → List String → List String
+  | 0, acc => acc
+  | n + 1, acc => reachList p n ((acc.flatMap (pipeKids p)).foldl (fun a m => if a.contains m then a else a ++ [m]) acc)
+
+/-- decidable: every pipeline of the program is reachable from the top pipelines through
+calls of pipelines -/
+def allReachB (p : Program) (tops : List String) : Bool :=
+  p.callables.all (fun c => !c.isPipe || (reachList p p.callables.length (topNames p tops)).contains c.name)
 
 end Martian.Refactor
 
